@@ -320,6 +320,7 @@ pub fn property() -> Property {
                 signature: no_signature,
                 essential: &["skipped_draw", "burst_exhausted", "gap_at_interval_multiple", "refill_after_long_gap", "multi_progress_target"],
                 workers: w,
+                decode: None,
             }),
             Box::new(Gen::<PosCase> {
                 name: "position_bucket",
@@ -334,6 +335,7 @@ pub fn property() -> Property {
                 signature: no_signature,
                 essential: &["update_throttled", "burst_exhausted"],
                 workers: w,
+                decode: None,
             }),
         ],
     }
